@@ -700,7 +700,8 @@ func (r *refRun) eval(f *sx, e *env) rval {
 	case "lambda":
 		return &rclosure{params: symList(a[0]), body: a[1:], env: e}
 	case "defun":
-		r.funcs[a[0].Atom] = &rclosure{params: symList(a[1]), body: a[2:], env: r.global, name: a[0].Atom}
+		// (a defun that is not at top level closes over the blocks and variables around it)
+		r.funcs[a[0].Atom] = &rclosure{params: symList(a[1]), body: a[2:], env: e, name: a[0].Atom}
 		return rsym(a[0].Atom)
 	case "funcall":
 		vs := r.args(a, e)
